@@ -1035,7 +1035,7 @@ Definition cfg_with (poll mono expi del : bool) : config :=
      totp_monotone := mono; chal_expiry := expi; chal_delete_wa := del; upgrade_checks_owner := true; okta_on := false; okta_life := 300; from_cache := false; totp_mem_guard := true |}.
 
 (* user 2 polls with the push cookie of user 1's approved transaction *)
-Definition w_poll : list op := [Login 1 true; Login 2 true; PushStart [0%nat] 7; Approve 0; Poll [1%nat] 7].
+Definition w_poll : list op := [Login 1 true []; Login 2 true []; PushStart [0%nat] 7; Approve 0; Poll [1%nat] 7].
 Lemma old_poll_cross_user :
   let s := fst (run (cfg_with false true true true) init w_poll) in
   exists c, In c (issued s) /\ cuser c = 2%N /\ has (clevel c) F_VIP = true /\ forall t, ~ In (2%N, F_VIP, t) (proved s).
@@ -1046,7 +1046,7 @@ Qed.
 
 (* a code accepted in step n is accepted again in step n+1 *)
 Definition w_totp : list op :=
-  [Tick 3000; Login 1 true; Totp [0%nat] (TCode 1 100); Tick 30; Totp [0%nat] (TCode 1 100)].
+  [Tick 3000; Login 1 true []; Totp [0%nat] (TCode 1 100); Tick 30; Totp [0%nat] (TCode 1 100)].
 Lemma old_totp_replay :
   ~ NoDup (spent (fst (run (cfg_with true false true true) init w_totp))) /\
   NoDup (spent (fst (run (cfg_with true true true true) init w_totp))).
@@ -1058,9 +1058,9 @@ Qed.
 
 (* a challenge answered 31 s after it was issued; an assertion accepted twice *)
 Definition asrt (u ch : N) (wa : bool) : assertion := {| a_owner := u; a_wa_key := wa; a_chal := ch |}.
-Definition w_chal_exp : list op := [Login 1 true; U2fBegin [0%nat]; Tick 31; U2fFinish [0%nat] (asrt 1 0 false)].
+Definition w_chal_exp : list op := [Login 1 true []; U2fBegin [0%nat]; Tick 31; U2fFinish [0%nat] (asrt 1 0 false)].
 Definition w_chal_twice : list op :=
-  [Login 1 true; U2fBegin [0%nat]; U2fFinish [0%nat] (asrt 1 0 true); U2fFinish [0%nat] (asrt 1 0 true)].
+  [Login 1 true []; U2fBegin [0%nat]; U2fFinish [0%nat] (asrt 1 0 true); U2fFinish [0%nat] (asrt 1 0 true)].
 Lemma old_challenge :
   nth 3 (snd (run (cfg_with true true false true) init w_chal_exp)) None <> None /\
   nth 3 (snd (run (cfg_with true true true true) init w_chal_exp)) None = None /\
@@ -1084,7 +1084,7 @@ Definition cfg_new_upgrade : config :=
      vip_life := 120; vip_expiry := true; poll_checks_user := true;
      totp_monotone := true; chal_expiry := true; chal_delete_wa := true; upgrade_checks_owner := true; okta_on := false; okta_life := 300; from_cache := false; totp_mem_guard := true |}.
 Definition w_cert : list op :=
-  [Login 2 true; IssueOtp 1 3600; Req (Some 1%N) false (Bootstrap [0%nat] (BCode 1 0))].
+  [Login 2 true []; IssueOtp 1 3600; Req (Some 1%N) false (Bootstrap [0%nat] (BCode 1 0))].
 Lemma old_cert_cookie :
   let s := fst (run cfg_old_upgrade init w_cert) in
   (exists c, In c (issued s) /\ cuser c = 2%N /\ has (clevel c) F_BOOT = true /\ has (clevel c) F_X509 = true /\
@@ -1107,7 +1107,7 @@ Definition cfg_first_cookie (lst : bool) : config :=
      vip_life := 120; vip_expiry := true; poll_checks_user := true;
      totp_monotone := true; chal_expiry := true; chal_delete_wa := true; upgrade_checks_owner := true; okta_on := false; okta_life := 300; from_cache := false; totp_mem_guard := true |}.
 Definition w_first : list op :=
-  [Tick 3000; Login 1 true; Totp [0%nat] (TCode 1 100); Tick 3600; Login 1 true;
+  [Tick 3000; Login 1 true []; Totp [0%nat] (TCode 1 100); Tick 3600; Login 1 true [];
    U2fBegin [2%nat; 1%nat]; U2fFinish [2%nat; 1%nat] (asrt 1 0 false)].
 Lemma old_first_cookie :
   (let s := fst (run (cfg_first_cookie false) init w_first) in
@@ -1129,7 +1129,7 @@ Definition cfg_vip_expiry (b : bool) : config :=
   {| devs := fun _ => dev_all; webui := 2 ^ F_U2F; cookie_life := 57600; sel_last := true; upg_last := true;
      vip_life := 120; vip_expiry := b; poll_checks_user := true;
      totp_monotone := true; chal_expiry := true; chal_delete_wa := true; upgrade_checks_owner := true; okta_on := false; okta_life := 300; from_cache := false; totp_mem_guard := true |}.
-Definition w_vip_exp : list op := [Login 1 true; PushStart [0%nat] 7; Approve 0; Tick 300; Poll [0%nat] 7].
+Definition w_vip_exp : list op := [Login 1 true []; PushStart [0%nat] 7; Approve 0; Tick 300; Poll [0%nat] 7].
 Lemma old_vip_expiry :
   nth 4 (snd (run (cfg_vip_expiry false) init w_vip_exp)) None <> None /\
   nth 4 (snd (run (cfg_vip_expiry true) init w_vip_exp)) None = None.
@@ -1287,7 +1287,7 @@ Definition cfg_mem_guard (g : bool) : config :=
      totp_monotone := true; chal_expiry := true; chal_delete_wa := true; upgrade_checks_owner := true;
      okta_on := false; okta_life := 300; from_cache := false; totp_mem_guard := g |}.
 Definition w_cached_totp : list op :=
-  [Tick 3000; Login 1 true; Cached (Totp [0%nat] (TCode 1 100)); Cached (Totp [0%nat] (TCode 1 100));
+  [Tick 3000; Login 1 true []; Cached (Totp [0%nat] (TCode 1 100)); Cached (Totp [0%nat] (TCode 1 100));
    Totp [0%nat] (TCode 1 100)].
 Lemma old_cached_totp :
   ~ NoDup (spent (fst (run (cfg_mem_guard false) init w_cached_totp))) /\
@@ -1298,4 +1298,49 @@ Proof.
   - vm_compute. intros H. inversion H as [|x l Hn Hd]; subst. apply Hn. left. reflexivity.
   - vm_compute. repeat constructor. intros [].
   - vm_compute. reflexivity.
+Qed.
+
+(* ---------------------------------------------------------------- logins with auth_cookie values attached *)
+(* what a login mints: only with the right password; the session of the user who logged in, beginning now, at the
+   password level exactly, with the configured lifetime — whatever auth_cookie values (cs), client certificate or
+   write fault come with the request, in any state *)
+Lemma login_mints_password_only k cert fault s u ok cs s' c :
+  step_req k cert fault s (Login u ok cs) = (s', Some c) ->
+  ok = true /\ c = {| cuser := u; clevel := add 0 F_PW; ciat := now s; cexp := (now s + cookie_life k)%Z |} /\
+  In c (issued s') /\ In (u, F_PW, now s) (proved s').
+Proof.
+  cbn [step_req]. destruct ok; [|discriminate]. intros H. inversion H; subst. clear H.
+  split; [reflexivity|]. split; [reflexivity|]. split.
+  - sset. apply in_or_app. right. now left.
+  - sset. now left.
+Qed.
+
+(* the attached cookies are no input of the login *)
+Lemma login_ignores_attached k cert fault s u ok cs cs' :
+  step_req k cert fault s (Login u ok cs) = step_req k cert fault s (Login u ok cs').
+Proof. reflexivity. Qed.
+
+Lemma login_level_bits f : has (add 0 F_PW) f = true -> f = F_PW.
+Proof. rewrite has_add, has_zero. cbn [orb]. intros H. apply N.eqb_eq in H. now subst. Qed.
+
+(* a loginHandler that keeps the second factors of the attached session of the same user (expiry not looked at):
+   user 1 proves U2F at 3000; 60000 s later that session has expired and authenticates nothing; attached to a
+   password login it gives the NEW session (iat 63000) the U2F bit, verified only at 3000 *)
+Definition w_carry : list op :=
+  [Tick 3000; Login 1 true []; U2fBegin [0%nat]; U2fFinish [0%nat] (asrt 1 0 false); Tick 60000].
+Lemma login_carry_unjustified :
+  let k := cfg_with true true true true in
+  let s := fst (run k init w_carry) in
+  session k s [1%nat] any_mask = None /\
+  (exists c, snd (login_carry k s 1 [1%nat]) = Some c /\ In c (issued (fst (login_carry k s 1 [1%nat]))) /\
+             cuser c = 1%N /\ has (clevel c) F_U2F = true /\ ciat c = 63000%Z /\
+             forall t, In (1%N, F_U2F, t) (proved (fst (login_carry k s 1 [1%nat]))) -> (t < ciat c)%Z) /\
+  (exists c, snd (step k s (Login 1 true [1%nat])) = Some c /\ clevel c = add 0 F_PW /\ ciat c = 63000%Z).
+Proof.
+  split; [vm_compute; reflexivity|]. split.
+  - eexists. split; [vm_compute; reflexivity|]. split; [vm_compute; right; right; left; reflexivity|].
+    split; [reflexivity|]. split; [vm_compute; reflexivity|]. split; [reflexivity|].
+    vm_compute. intros t [H|[H|[H|H]]]; try discriminate; try contradiction.
+    inversion H; subst. reflexivity.
+  - eexists. split; [vm_compute; reflexivity|]. split; vm_compute; reflexivity.
 Qed.
